@@ -362,6 +362,15 @@ def run(chk):
             if not quick:
                 cases.append(("gemmx", shp, i8out, (None, None, None), "flat"))
         cases.append(("gemmx", shp, False, (f"strided<[{K}, 1], offset: 16>", f"strided<[1, {K}]>", None), None))
+    # seeded family: random multiples of the 8x8x8 tile, random operand layouts (row/column major, padded rows, offsets)
+    for _ in range(30 if quick else 300):
+        M, N, K = (8 * rnd.randint(1, 8) for _ in range(3))
+        la = rnd.choice([None, None, f"strided<[{K}, 1]>", f"strided<[{K + 8}, 1]>", f"strided<[1, {M}]>", f"strided<[{K}, 1], offset: {8 * rnd.randint(1, 4)}>"])
+        lb = rnd.choice([None, f"strided<[1, {K}]>", f"strided<[1, {K + 16}]>", f"strided<[{N}, 1]>"])
+        mode = rnd.choice([None, None, "tiled"] + ([] if quick else ["flat"]))
+        if mode is not None:
+            la = lb = None
+        cases.append(("gemmx", (M, N, K), rnd.random() < 0.5, (la, lb, None), mode))
     # direct schedules with explicit TSL layouts
     cases.append(("direct", "memref<32x16xi8, #tsl.tsl<[4, 8] -> (128, 8), [2, 8] -> (64, 1)>>", "memref<16x16xi8, #tsl.tsl<[2, 8] -> (64, 1), [2, 8] -> (128, 8)>>",
                   "memref<32x16xi32, #tsl.tsl<[4, 8] -> (64, 8), [2, 8] -> (256, 1)>>", 2))
